@@ -7,7 +7,7 @@ import tempfile
 
 import env
 from fakes import MISSING, World
-from proto import Runner, op_line
+from proto import ProgramInvalid, Runner, op_line
 
 VERIF = os.path.dirname(os.path.dirname(os.path.abspath(__file__)))
 DRIVER = os.path.join(VERIF, "lean", ".lake", "build", "bin", "driver")
